@@ -281,7 +281,9 @@ def gen_perturb_cases(rng, n_per_system):
         while made < n_per_system and tries < 20 * n_per_system:
             tries += 1
             nrows = int(rng.integers(1, 5))
-            target_factor = float(rng.choice([1e-3, 0.1, 3.0, 10.0, 1e3]))
+            target_factor = float(rng.choice([1e-3, 0.1, 0.8, 1.25, 3.0, 10.0, 1e3]))   # 0.8 / 1.25: 20 % off the threshold (the measure is exact)
+            if made == 0: target_factor = 1.25          # every system, every run: just above the threshold, no flag -> must refuse
+            if made == 1: target_factor = 0.8           # ... and just below -> must accept
             if target_factor == 3.0:
                 # a contradiction confined to ONE of many volumes, 3x above the tolerance there (the refusal is per
                 # volume: it must not be diluted by the clean volumes)
@@ -301,12 +303,13 @@ def gen_perturb_cases(rng, n_per_system):
             Tp = T.copy(); Tp[row, S[j]] += delta
             cols, vals = table(Tp, S, with_v=True)
             ir, ik = FLAG_COMBOS[int(rng.integers(0, 4))]
+            if made < 2: ir, ik = False, False
             case = {"family": "perturb", "system": system, "columns": cols, "values": vals,
                     "kw": kw_of(ir, ik, residual_atol=atol), "sufficient": True,
                     "target_factor": target_factor, "perturbed": fc.SYMS[S[j]], "delta": delta}
             rho = exact_residual(case)
             ratio = float(rho) / atol
-            if not (ratio >= 2.99 or ratio <= 0.1001): continue
+            if not (ratio >= 1.2 or ratio <= 0.84): continue
             case["contradiction"] = "large" if ratio > 1 else "small"
             case["exact_residual_over_atol"] = ratio
             cases.append(case); made += 1
@@ -482,6 +485,80 @@ def evaluate(ctx: Ctx, res: Result, cases):
                                 "impl_columns": impl.get("columns")})
 
 
+
+# ----------------------------------------------------------------------------- the same through `cij fill` (second observation point)
+def run_cli(case):
+    """`cij fill -s SYSTEM [--ignore-residuals] [--ignore-rank] [--drop-atol X] FILE` through click's CliRunner on a file that
+    holds the case's table (17 significant digits).  Returns an outcome in the format of fc.run_impl."""
+    import io, os, tempfile, shutil, warnings
+    import pandas
+    from click.testing import CliRunner
+    from cij.cli.fill import main
+    kw = case.get("kw", {})
+    cols, vals = case["columns"], case["values"]
+    n = len(vals[0]) if vals else 0
+    lines = ["V_0 N cellmass test", "100.0 %d 10.0" % n, " ".join(cols)]
+    for r in range(n):
+        lines.append(" ".join(repr(float(vals[c][r])) for c in range(len(cols))))
+    tmp = tempfile.mkdtemp(prefix="c09cli_")
+    try:
+        path = os.path.join(tmp, "elast.dat")
+        with open(path, "w") as fp: fp.write("\n".join(lines) + "\n")
+        args = ["-s", case["system"]]
+        if kw.get("ignore_residuals"): args.append("--ignore-residuals")
+        if kw.get("ignore_rank"): args.append("--ignore-rank")
+        if "drop_atol" in kw: args += ["--drop-atol", repr(float(kw["drop_atol"]))]
+        with warnings.catch_warnings():
+            warnings.simplefilter("ignore")
+            r = CliRunner().invoke(main, args + [path])
+        if r.exit_code != 0:
+            if r.exception is not None and not isinstance(r.exception, SystemExit):
+                return {"status": fc.classify(r.exception), "detail": str(r.exception)[:200]}
+            return {"status": "error:exit%d" % r.exit_code}
+        out = r.stdout.split("\n")
+        df = pandas.read_table(io.StringIO("\n".join(out[2:2 + n + 1]) + "\n"), header=0, index_col=None, sep=r"\s+")
+        return {"status": "ok", "columns": [str(c) for c in df.columns], "values": [df[c].to_numpy(dtype=float).tolist() for c in df.columns]}
+    finally:
+        shutil.rmtree(tmp, ignore_errors=True)
+
+
+def cli_cases(ctx: Ctx, res: Result, cases, cap):
+    """status (accept / refuse:rank / refuse:residual) of the command = status the statement prescribes for the same table and
+    flags; the prescribed status is the one the property oracle accepts for the library call (oracle(case) without failures),
+    so only cases on which the library call itself satisfies the statement are used as reference"""
+    n = 0
+    for case in cases:
+        if n >= cap or ctx.time_left() < 30: break
+        kw = case.get("kw", {})
+        if case["system"] is None or case["family"] not in ("flags", "subset", "perturb"): continue
+        if any(k not in ("ignore_residuals", "ignore_rank", "drop_atol") for k in kw): continue      # no CLI option for residual_atol
+        if not all(isinstance(c, str) and c.strip() and " " not in c for c in case["columns"]): continue
+        if case.get("int_cols") or case.get("variant"): continue
+        lib, fails = oracle(case)
+        if fails: continue
+        cli = run_cli(case)
+        n += 1
+        res.evaluations += 1
+        if cli["status"] != lib["status"]:
+            res.oracle_failures.append(OracleFailure(
+                what=f"`cij fill` with flags {sorted(k for k in ('ignore_residuals', 'ignore_rank') if kw.get(k))}: status {cli['status']}, "
+                     f"the statement prescribes {lib['status']} for this table",
+                input=dict(case, cli=True), observed=cli["status"], expected=lib["status"], site="c09:cli:status"))
+        elif cli["status"] == "ok":
+            a, b = fc.as_map(cli), fc.as_map(lib)
+            scale = fc.table_scale(case["values"])
+            # the command prints with pandas' default 6 significant digits
+            if set(a) != set(b) or any(float(numpy.max(numpy.abs(numpy.array(a[k]) - numpy.array(b[k])))) > 1e-5 * max(scale, 1.0) for k in a):
+                res.oracle_failures.append(OracleFailure(what="`cij fill` prints a different table than fill_cij returns for the same input",
+                                                         input=dict(case, cli=True), observed={k: a[k][:2] for k in sorted(a)[:6]},
+                                                         expected={k: b[k][:2] for k in sorted(b)[:6]}, site="c09:cli:table"))
+            else:
+                res.traces_validated += 1
+        else:
+            res.traces_validated += 1
+    res.distribution["cli_cases"] = res.distribution.get("cli_cases", 0) + n
+
+
 def run(ctx: Ctx) -> Result:
     res = Result()
     rng = ctx.rng
@@ -501,6 +578,8 @@ def run(ctx: Ctx) -> Result:
         res.distribution["pivot_subset_sweep_cases"] = len(sweep)
         cases += sweep
     evaluate(ctx, res, cases)
+    flagged = [c for c in cases if c["family"] == "flags"] + [c for c in cases if c["family"] in ("subset", "perturb")]
+    cli_cases(ctx, res, flagged, 160 if big else 40)
     res.distinct_nontrivial = sum(1 for c in cases if c["system"] not in (None, "triclinic"))
     res.notes.append("the model has no dtype: integer-typed tables are sent to it as the same numbers; the int-vs-float clause "
                      "is evaluated by the oracle on the real code")
@@ -519,9 +598,15 @@ def search(ctx: Ctx, res: Result):
                 kw = dict(c.get("kw", {})); kw.pop("ignore_residuals", None); kw.pop("ignore_rank", None)
                 cases.append(dict(c, kw=dict(kw, **kw_of(ir, ik))))
     evaluate(ctx, found, cases)
+    cli_cases(ctx, found, [c for c in cases if c["family"] == "flags"], 40)
     return found.oracle_failures
 
 
 def replay(ctx: Ctx, payload):
+    if payload.get("cli"):
+        r = Result()
+        case = {k: v for k, v in payload.items() if k != "cli"}
+        cli_cases(ctx, r, [case], 1)
+        return r.oracle_failures
     _, fails = oracle(payload)
     return [OracleFailure(what=w, input=payload, observed=o, expected=e, site=s) for w, o, e, s in fails]
